@@ -128,7 +128,15 @@ pub fn date_from_partial<S: Src>(s: &mut S, ylo: i32, yhi: i32) {
     p.month = month;
     p.month_code = code.map(|c| c.2);
     p.day = day;
-    let want = ref_date(p.year, month, code.map(|c| (c.0, c.1)), day, reject);
+    let mut want = ref_date(p.year, month, code.map(|c| (c.0, c.1)), day, reject);
+    // a well-formed record beyond the representable range (-271821-04-19 ..= +275760-09-13) is a RangeError
+    if let Want::Date(yy, mm, dd) = want {
+        let days = ref_epoch_days(yy, mm, dd);
+        if !(-100_000_001..=100_000_000).contains(&days) {
+            vcover!(s, "C17.date.beyond_the_limit_reachable", true);
+            want = Want::RangeErr;
+        }
+    }
     vcover!(s, "C17.date.accepting_reachable", matches!(want, Want::Date(..)));
     vcover!(s, "C17.date.clamped_day_reachable", matches!(want, Want::Date(_, _, dd) if Some(dd) != day));
     vcover!(s, "C17.date.type_error_reachable", want == Want::TypeErr);
